@@ -86,7 +86,9 @@ Proof. exact zonal_value. Qed.
 Theorem C17_zonal_laplacian_exact : forall venv penv fenv, venv 0%nat <> 0 -> sin (venv 1%nat) <> 0 -> 0 < penv 0%nat ->
   eval venv penv fenv zonal_lap_0.term = eval venv penv fenv zonal_expansion_0.term /\
   eval venv penv fenv zonal_lap_2.term = eval venv penv fenv zonal_expansion_2.term /\
-  eval venv penv fenv zonal_lap_4.term = eval venv penv fenv zonal_expansion_4.term.
+  eval venv penv fenv zonal_lap_4.term = eval venv penv fenv zonal_expansion_4.term /\
+  eval venv penv fenv zonal_lap_deg_3_1.term = eval venv penv fenv zonal_expansion_deg_3_1.term /\
+  eval venv penv fenv zonal_lap_deg_2.term = eval venv penv fenv zonal_expansion_deg_2.term.
 Proof. exact zonal_laplacian_exact. Qed.
 
 (* ---- real Fourier series: column order, and the Fourier Laplacian against the polar Laplacian *)
